@@ -229,6 +229,51 @@ def agp_history_clauses(trials, r, N):
     return out
 
 
+def agp_history_check_fast(trials, r, N, tol=1e-9):
+    """numpy version of agp_history_clauses for long native runs: returns the list of violated clause labels (first occurrence each)"""
+    import numpy as np
+    bad = []
+    xs = [0.0, float(trials[0][0]), 1.0]
+    zs = [np.nan, float(trials[0][1]), np.nan]
+    if abs(xs[1] - 0.5) > 1e-12:
+        bad.append('FIRST: the first trial is at curve coordinate 0.5')
+    M, Z = 1.0, zs[1]
+    import bisect
+    for k in range(1, len(trials)):
+        xk, zk = float(trials[k][0]), float(trials[k][1])
+        t = bisect.bisect_right(xs, xk)
+        if t == 0 or t >= len(xs) or xs[t - 1] >= xk:
+            bad.append('INSIDE: trial %d lies strictly inside an interval of the partition (no curve point twice)' % (k + 1))
+            break
+        X = np.array(xs)
+        Zs = np.array(zs)
+        D = (X[1:] - X[:-1]) ** (1.0 / N)
+        zl, zr = Zs[:-1], Zs[1:]
+        both = ~np.isnan(zl) & ~np.isnan(zr)
+        R = np.where(both, D + (zr - zl) ** 2 / (r * r * M * M * D) - 2 * (zr + zl - 2 * Z) / (r * M),
+                     np.where(np.isnan(zl), 2 * D - 4 * (zr - Z) / (r * M), 2 * D - 4 * (zl - Z) / (r * M)))
+        Rt = R[t - 1]
+        if np.nanmax(R) - Rt > tol * max(1.0, abs(Rt)):
+            lab = 'MAXR: trial %d subdivides an interval with maximal characteristic' % (k + 1)
+            if not any(b.startswith('MAXR') for b in bad):
+                bad.append(lab + ' (R chosen %r, largest %r)' % (float(Rt), float(np.nanmax(R))))
+        exp = next_point(xs[t - 1], xs[t], None if np.isnan(zs[t - 1]) else zs[t - 1], None if np.isnan(zs[t]) else zs[t], M, r, N)
+        if abs(exp - xk) > tol * max(1.0, abs(xk)) and not any(b.startswith('POINT') for b in bad):
+            bad.append('POINT: trial %d is placed at the point given by the decision rule' % (k + 1))
+        for (xa, za), (xb, zb) in (((xs[t - 1], zs[t - 1]), (xk, zk)), ((xk, zk), (xs[t], zs[t]))):
+            if not np.isnan(za) and not np.isnan(zb):
+                m = abs(zb - za) / (xb - xa) ** (1.0 / N)
+                if m > M:
+                    M = m
+        if zk < Z:
+            Z = zk
+        xs.insert(t, xk)
+        zs.insert(t, zk)
+        if len(bad) >= 3:
+            break
+    return bad
+
+
 def bool_of(c):
     """Force a condition to a Python bool (forks the path in the symbolic engine)."""
     return True if c is True else False if c is False else bool(c)
@@ -913,7 +958,7 @@ def native_main(a):
             L = listener_class(mods, ('iter',))()
             s.AddListener(L)
             s.DoGlobalIteration(iters)
-            cl = [('C02 ' + l, c) for l, c in agp_history_clauses(trials_of(L), r, N)]
+            cl = [('C02 ' + l, False) for l in agp_history_check_fast(trials_of(L), r, N)]
         elif a['level'] == 'guard':
             s = make_solver(mods, P(1, lower, upper, lambda ys, i: 0.0), 2.5, 0.01, 1000)
             cl = guard_clauses(mods, s, g('eps', 0.01), int(g('iters_limit', 1)), int(g('iterations', 1)),
@@ -1057,13 +1102,15 @@ def run_scenario(mods, cfg, objective, r, eps, prints=None, after_create=None):
         ctx['sibling'] = sib
     if after_create is not None:
         after_create(ctx)
+    if cfg.get('console') and cfg.get('console_first'):
+        s.AddListener(mods.listener.ConsoleFullOutputListener(mode=cfg['console'], iters=cfg.get('console_iters', 1)))
     L = None
     if cfg.get('overrides') is not None:
         L = listener_class(mods, tuple(cfg['overrides']))()
         L.clock = lambda: len(prob.started)
         s.AddListener(L)
     ctx['listener'] = L
-    if cfg.get('console'):
+    if cfg.get('console') and not cfg.get('console_first'):
         s.AddListener(mods.listener.ConsoleFullOutputListener(mode=cfg['console'], iters=cfg.get('console_iters', 1)))
     for st in cfg['script']:
         if st[0] == 'iter':
